@@ -44,11 +44,97 @@ theorem C17_owner_unfixed_false : ¬ C17_owner_full false := by
   revert this
   decide
 
-/-- each matcher is closed at most once in the schedule -/
-def ClosedOnce (evs : List Ev) : Prop := (evs.filterMap (fun e => match e with | .cls m => some m | _ => none)).Nodup
+/-- the matchers closed by the events of a schedule, in order -/
+def closesOf (evs : List Ev) : List Nat := evs.filterMap (fun e => match e with | .cls m => some m | _ => none)
 
-/-- matcher ids are not reused -/
-def OpenedOnce (evs : List Ev) : Prop := (evs.filterMap (fun e => match e with | .opn m _ => some m | _ => none)).Nodup
+/-- the matchers opened by the events of a schedule, in order -/
+def opensOf (evs : List Ev) : List Nat := evs.filterMap (fun e => match e with | .opn m _ => some m | _ => none)
+
+theorem closeHeld_same (m : Nat) : ∀ (held : List Held),
+    (∀ h ∈ held, h.closed = true → h.matcher ≠ m) → closeHeld false m held = closeHeld true m held
+  | [], _ => rfl
+  | h :: r, hyp => by
+    unfold closeHeld
+    by_cases hm : h.matcher = m
+    · have hc : h.closed = false := by
+        cases hh : h.closed with
+        | false => rfl
+        | true => exact absurd hm (hyp h (by simp) hh)
+      simp [hm, hc]
+    · simp only [hm, if_false]
+      rw [closeHeld_same m r (fun x hx => hyp x (List.mem_cons_of_mem _ hx))]
+
+theorem closeHeld_closed (idem : Bool) (m : Nat) : ∀ (held : List Held) (x : Held),
+    x ∈ (closeHeld idem m held).1 → x.closed = true → x.matcher = m ∨ (x ∈ held)
+  | [], x, hx, _ => by simp [closeHeld] at hx
+  | h :: r, x, hx, hc => by
+    unfold closeHeld at hx
+    by_cases hm : h.matcher = m
+    · simp only [hm, if_true] at hx
+      split at hx
+      · exact Or.inr hx
+      · simp only [List.mem_cons] at hx
+        rcases hx with rfl | hx
+        · exact Or.inl rfl
+        · exact Or.inr (List.mem_cons_of_mem _ hx)
+    · simp only [hm, if_false, List.mem_cons] at hx
+      rcases hx with rfl | hx
+      · exact Or.inr (by simp)
+      · rcases closeHeld_closed idem m r x hx hc with h' | h'
+        · exact Or.inl h'
+        · exact Or.inr (List.mem_cons_of_mem _ h')
+
+/-- as long as no matcher is closed twice the two versions of `Close` behave identically -/
+theorem run_false_eq_true : ∀ (evs : List Ev) (s : PState),
+    (closesOf evs).Nodup → (∀ h ∈ s.held, h.closed = true → h.matcher ∉ closesOf evs) →
+    run false s evs = run true s evs
+  | [], _, _, _ => rfl
+  | .opn m pick :: r, s, hn, hyp => by
+    simp only [run, List.foldl_cons]
+    have hstep : step false s (.opn m pick) = step true s (.opn m pick) := by
+      cases pick <;> simp [step]
+    rw [hstep]
+    apply run_false_eq_true r _ (by simpa [closesOf] using hn)
+    intro h hh hc
+    have hcl : closesOf (Ev.opn m pick :: r) = closesOf r := by simp [closesOf]
+    rw [← hcl]
+    -- a freshly opened matcher is not closed; everything else was held before
+    cases pick with
+    | none =>
+      simp only [step, List.mem_cons] at hh
+      rcases hh with rfl | hh
+      · simp at hc
+      · exact hyp h hh hc
+    | some k =>
+      simp only [step] at hh
+      split at hh <;>
+      · simp only [List.mem_cons] at hh
+        rcases hh with rfl | hh
+        · simp at hc
+        · exact hyp h hh hc
+  | .cls m :: r, s, hn, hyp => by
+    simp only [run, List.foldl_cons]
+    have hcl : closesOf (Ev.cls m :: r) = m :: closesOf r := by simp [closesOf]
+    rw [hcl] at hn hyp
+    have hn' := List.nodup_cons.mp hn
+    have hsame : closeHeld false m s.held = closeHeld true m s.held :=
+      closeHeld_same m s.held (fun h hh hc hm => hyp h hh hc (by simp [hm]))
+    have hstep : step false s (.cls m) = step true s (.cls m) := by
+      simp only [step, hsame]
+    rw [hstep]
+    apply run_false_eq_true r _ hn'.2
+    intro h hh hc
+    simp only [step] at hh
+    rcases closeHeld_closed true m s.held h hh hc with hm | hold
+    · rw [hm]; exact hn'.1
+    · intro hmem
+      exact hyp h hold hc (List.mem_cons_of_mem _ hmem)
+
+/-- What the code as it was does guarantee: a schedule in which no matcher is closed twice. -/
+theorem C17_owner_unfixed_partial (evs : List Ev) (h : (closesOf evs).Nodup) :
+    (liveBufs (run false PState.init evs)).Nodup ∧ (run false PState.init evs).free.Nodup := by
+  rw [run_false_eq_true evs PState.init h (by intro h hh; simp [PState.init] at hh)]
+  exact C17_owner evs
 
 /-! ### (b) BucketedPool budget -/
 
